@@ -160,7 +160,7 @@ class Hist(object):
                 'tickets': list(q.entries),
                 'stats': dict(zip(L.structs['PriceLevelStatistics'], lv[self.i_stats]))}
 
-    def rep_invariant(self, lv):
+    def rep_invariant(self, lv, coverage_only=False):
         """representation invariant of a level value: every resting order is covered by an available
         ticket; per-order displayed+hidden does not overflow"""
         from .values import veq
@@ -169,8 +169,9 @@ class Hist(object):
         for occ, k, o in p['resting']:
             cov = [S.And(tp, S.Not(popped), veq(idv, k)) for _, tp, popped, idv in p['tickets']]
             conj.append(S.Implies(occ, S.Or(cov)))
-            v = OrderView(self.L, o)
-            conj.append(S.Implies(occ, S.Not(S.AddOvf(v.displayed, v.hidden))))
+            if not coverage_only:
+                v = OrderView(self.L, o)
+                conj.append(S.Implies(occ, S.Not(S.AddOvf(v.displayed, v.hidden))))
         return S.And(conj)
 
     def total_supply(self, lv, w=70):
